@@ -1055,15 +1055,15 @@ func plan(tier string, seed uint64) []workerSpec {
 	sp := []string{"time-far-future", "estime-long-fraction", "oversize-tail-exact"}
 	k := 1
 	if tier == "thorough" {
-		k = 40
+		k = 20
 	}
 	specs := []workerSpec{
-		{7, 500 * k, fr, 0}, {16, 500 * k, fr, 0}, {17, 500 * k, fr, 0}, {23, 400 * k, fr, 0}, {32, 500 * k, fr, 0},
-		{64, 700 * k, mix, 0}, {100, 600 * k, mix, 0}, {200, 800 * k, tm, 0}, {1024, 150 * k, mix, 0},
-		{128, 60, sp, 0}, {20, 30, []string{"oversize-tail-exact"}, 0},
+		{7, 300 * k, fr, 0}, {16, 300 * k, fr, 0}, {17, 300 * k, fr, 0}, {23, 250 * k, fr, 0}, {32, 300 * k, fr, 0},
+		{64, 450 * k, mix, 0}, {100, 400 * k, mix, 0}, {200, 500 * k, tm, 0}, {1024, 100 * k, mix, 0},
+		{128, 60 * k, sp, 0}, {20, 30 * k, []string{"oversize-tail-exact"}, 0},
 	}
 	if tier == "thorough" {
-		specs = append(specs, workerSpec{4096, 300, mix, 0}, workerSpec{33, 500 * k, fr, 0}, workerSpec{257, 200 * k, mix, 0})
+		specs = append(specs, workerSpec{4096, 300, mix, 0}, workerSpec{33, 300 * k, fr, 0}, workerSpec{257, 200 * k, mix, 0})
 	}
 	for i := range specs {
 		specs[i].Seed = r.U64()
